@@ -174,6 +174,12 @@ func c14Codec(dl time.Time) engine.UnitResult {
 	}
 	gen([]string{"a", "b"}, 3, "", &provs)
 	gen([]string{"a", "A", ";", ":", "+", "%", "\xe9", "\xe8"}, 4, "", &uids)
+	// uids that spell an account identifier of their own provider ("oauth2;;a;;b" reported by provider a)
+	for _, p := range []string{"a", "b"} {
+		for _, u := range []string{"a", "A", ";", "a;"} {
+			uids = append(uids, "oauth2;;"+p+";;"+u)
+		}
+	}
 	type pair struct{ p, u string }
 	pids := map[string]pair{}
 	for _, p := range provs {
